@@ -19,7 +19,8 @@ type eolState struct {
 func runC15(c *Ctx, r *Report) {
 	r.Rule("C15.R1", "end-of-file / end-of-line pairing: wherever a parser function tests the current (or next) token for EOF it also tests it for EOL, and every parser loop exits when the lookahead is stuck on EOL (shared evaluation with C08.R2)")
 	r.Rule("C15.R2", "end of line is a continuation, not an error: exploring every parser function with the next token fixed to EOL (and then current = next = EOL after a shift), no error is recorded about that token before continuation is requested: peekError is unreachable while peek is EOL, noPrefixParseFnError and direct error appends are unreachable while the current token is EOL")
-	r.Rule("C15.R3", "unterminated string literals yield the lexer's end marker (EOL in line mode), and EOLEOF returns the EOL token exactly in line mode")
+	r.Rule("C15.R3", "an input that ends inside a string asks for more: where readString reports a missing closing quote NextToken returns the EOL token under the lineMode test after noting the open string, ParseProgram turns Lexer.OpenString() into the continuation request, and EOLEOF returns the EOL token exactly in line mode")
+	r.Rule("C16.R5", "(shared) an unfinished token is not the end of the input: in file mode the failed-read edge of readString does not return the end marker")
 
 	pi := c.parserInfo()
 	eof, eol := c.tokenConst("EOF"), c.tokenConst("EOL")
@@ -243,25 +244,98 @@ func runC15(c *Ctx, r *Report) {
 		nextToken := c.SSAFn(c.Fn("lexer", "Lexer.NextToken"))
 		readString := c.Fn("lexer", "Lexer.readString")
 		eoleofFn := c.Fn("lexer", "Lexer.EOLEOF")
+		lexT := c.TypeNamed("lexer", "Lexer")
+		eolT := c.SSAPkg("token").Members["EOLT"]
+		eofT := c.SSAPkg("token").Members["EOFT"]
+		isLoadOf := func(v ssa.Value, g ssa.Member) bool {
+			ld, ok := v.(*ssa.UnOp)
+			return ok && g != nil && ld.X == g.(ssa.Value)
+		}
 		for _, rc := range callsIn(nextToken, readString) {
 			okv := extractOf(rc.(*ssa.Call), 1)
 			good := false
+			endInFileMode := ""
 			if okv != nil {
 				for _, ref := range *okv.Referrers() {
-					if ifi, ok := ref.(*ssa.If); ok {
-						fb := ifi.Block().Succs[1]
-						if ret, ok := fb.Instrs[len(fb.Instrs)-1].(*ssa.Return); ok {
-							if call, ok := retVal(ret, 0).(*ssa.Call); ok && isCallTo(call, eoleofFn) {
+					ifi, ok := ref.(*ssa.If)
+					if !ok {
+						continue
+					}
+					fb := ifi.Block().Succs[1]
+					// the returns of the failed-read region
+					for _, b := range nextToken.Blocks {
+						if !(b == fb || (len(fb.Preds) == 1 && fb.Dominates(b))) {
+							continue
+						}
+						ret, ok := b.Instrs[len(b.Instrs)-1].(*ssa.Return)
+						if !ok {
+							continue
+						}
+						v := retVal(ret, 0)
+						if call, ok := v.(*ssa.Call); ok && isCallTo(call, eoleofFn) {
+							// the old form: end marker in both modes
+							good = true
+							endInFileMode = c.Pos(ret.Pos())
+							continue
+						}
+						if isLoadOf(v, eofT) {
+							endInFileMode = c.Pos(ret.Pos())
+							continue
+						}
+						if isLoadOf(v, eolT) {
+							// only in line mode, and the open string is remembered for the parser
+							inLine := false
+							for _, cc := range controlling(b) {
+								if ld, ok := cc.Cond.(*ssa.UnOp); ok && isFieldAddrOf(ld.X, lexT, "lineMode") && cc.Edge == 0 {
+									inLine = true
+								}
+							}
+							noted := false
+							for _, in := range b.Instrs {
+								if st, ok := in.(*ssa.Store); ok && isFieldAddrOf(st.Addr, lexT, "openString") {
+									if k, ok := st.Val.(*ssa.Const); ok && k.Value != nil && k.Value.ExactString() == "true" {
+										noted = true
+									}
+								}
+							}
+							if inLine && noted {
 								good = true
 							}
 						}
 					}
 				}
 			}
-			r.Check(good, "C15.R3", ssaFuncName(nextToken), "unterminated string yields the end marker", c.Pos(rc.Pos()), "an unterminated string literal does not produce EOL/EOF: line mode cannot ask for the rest of the string")
+			r.Check(endInFileMode == "", "C16.R5", ssaFuncName(nextToken), "an unterminated string is not the end marker in file mode", c.Pos(rc.Pos()),
+				"where readString reports a missing closing quote NextToken returns the end-of-file marker ("+endInFileMode+"): the rest of the script is silently dropped, no error, exit 0")
+			r.Check(good, "C15.R3", ssaFuncName(nextToken), "in line mode an unterminated string yields EOL and is remembered", c.Pos(rc.Pos()), "where readString reports a missing closing quote NextToken does not return the EOL token under the lineMode test after noting the open string (or the end marker in both modes): line mode cannot ask for the rest of the string")
+			// the parser turns the open string into a continuation request
+			{
+				pp := c.SSAFn(c.Fn("parser", "Parser.ParseProgram"))
+				open := c.FnOpt("lexer", "Lexer.OpenString")
+				parT := c.TypeNamed("parser", "Parser")
+				asks := false
+				if open != nil {
+					for _, oc := range callsIn(pp, open) {
+						ocv, ok := oc.(*ssa.Call)
+						if !ok {
+							continue
+						}
+						for _, ref := range *ocv.Referrers() {
+							if ifi, ok := ref.(*ssa.If); ok {
+								for _, in := range ifi.Block().Succs[0].Instrs {
+									if st, ok := in.(*ssa.Store); ok && isFieldAddrOf(st.Addr, parT, "continuationNeeded") {
+										asks = true
+									}
+								}
+							}
+						}
+					}
+				}
+				r.Check(asks || endInFileMode != "", "C15.R3", ssaFuncName(pp), "an input that ends inside a string asks for more", c.Pos(pp.Pos()),
+					"ParseProgram does not turn Lexer.OpenString() into a continuation request: a statement that starts with an unterminated string is silently accepted in line mode")
+			}
 		}
 		ef := c.SSAFn(eoleofFn)
-		lexT := c.TypeNamed("lexer", "Lexer")
 		good := false
 		for _, b := range ef.Blocks {
 			ifi, ok := b.Instrs[len(b.Instrs)-1].(*ssa.If)
